@@ -658,6 +658,32 @@ pub fn run(tier: &str, seed: u64, outdir: &str, extra: &[String]) {
                 }
             }
         }
+        // (d) frames with at least 65536 macroblocks ("all frame dimensions": per-frame counters and buffer sizes must not be
+        //     computed in 16 bits); libwebp encodes a smooth picture, the planes are compared natively only (no oracle case)
+        let huge: &[(usize, usize)] = if tier == "thorough" { &[(16383, 1025), (1025, 16383), (4096, 4096), (8192, 2048)] } else { &[(16383, 1025)] };
+        for &(w, h) in huge {
+            let mut pix = vec![0u8; w * h * 3];
+            for y in 0..h {
+                let row = &mut pix[y * w * 3..(y + 1) * w * 3];
+                for x in 0..w {
+                    let v = (((x / 64) * 7 + (y / 64) * 13 + ((x ^ y) & 1)) & 0xff) as u8;
+                    row[x * 3] = v;
+                    row[x * 3 + 1] = v.wrapping_add(40);
+                    row[x * 3 + 2] = v.wrapping_mul(3);
+                }
+            }
+            if let Some(f) = rw::encode(w, h, &pix, 3, 20.0, |c| { c.method = 0; c.segments = 2; c.filter_strength = 20; }) {
+                drop(pix);
+                for p in rw::vp8_payloads(&f) {
+                    evaluations += 1;
+                    if !cx.judge("huge_frames", &p, false, None, simd_primary) {
+                        cx.feat.inc(&format!("huge_frames.disagree.{}x{}", w, h));
+                    }
+                }
+            } else {
+                cx.feat.inc("huge_frames.encoder_failed");
+            }
+        }
     }
 
     std::fs::write(format!("{outdir}/violation_cases.txt"), cx.violation_cases.join("\n") + if cx.violation_cases.is_empty() { "" } else { "\n" }).unwrap();
